@@ -143,6 +143,7 @@ def c03(ctx):
     ctx.stream("special-table", gen.special_lines(fm), exhaustive=True, nontrivial=sp)
     ctx.stream("cancel-real", gen.cancel_lines(rng, tiers(ctx, 3000, 60000)), nontrivial=sp)
     ctx.stream("mode-differs-from-format", gen.rm_mismatch_lines(rng, tiers(ctx, 6000, 80000), ops=("add", "sub")), nontrivial=sp)
+    padded(ctx, rng, "cancel", gen.cancel_lines(rng, 6000) + gen.rm_mismatch_lines(rng, 3000, ops=("add", "sub"))[-3000:], 10 ** 9, nontrivial=sp)
     # every exactly cancelling pair of the small formats comes with the exhaustive enumeration
     small = tiers(ctx, [(2, 2), (2, 3), (3, 3), (3, 4)], gen.SMALL_QUICK + [(4, 4)])
     ctx.stream("exh-small-addsub", gen.exh_binary(["add", "sub"], small, values=gen.all_values), exhaustive=True, nontrivial=sp)
@@ -526,6 +527,14 @@ def c18(ctx):
     rng = random.Random(ctx.seed)
     fm = tiers(ctx, gen.TRANS_FMTS_Q, gen.TRANS_FMTS_T)
     lines = corpus_lines("C18", {"pow", "powi"}) + gen.pow_lines(rng, fm, tiers(ctx, 8, 50)) + gen.pow_large_lines(rng, fm + [(11, 24), (12, 30)], tiers(ctx, 60, 600))
+    lines += gen.powi_guard_lines(rng, tiers(ctx, 40, 400))
+    wide = gen.pow_wide_exponent_lines(rng, 1) if ctx.tier == "thorough" else []   # (minutes per line in the model: thorough tier only)
+    wi, _ = ctx.stream("pow-wide-exponent", wide, nontrivial=lambda t: t in ("n", "-"), chunk_timeout=tiers(ctx, 600, 1800), per_line_timeout=tiers(ctx, 60, 240), chunk_lines=1)
+    for ln, im in zip(wide, wi):
+        t = ln.split()
+        why = oracle.check_pow(_sem_of(t[1]), t[2], t[3], im)
+        if why:
+            ctx.fail("oracle", "pow-wide-exponent", ln, im, "-", why)
     impl, _ = ctx.stream("pow-powi", lines, nontrivial=lambda t: t in ("n", "-"), chunk_timeout=tiers(ctx, 600, 1800), per_line_timeout=tiers(ctx, 20, 120))
     for ln, im in zip(lines, impl):
         t = ln.split()
